@@ -19,6 +19,9 @@ import (
 type c03Case struct {
 	Tree *ir.Node `json:"tree"`          // programmatic tree (when Src is empty)
 	Src  string   `json:"src,omitempty"` // or: source text whose parsed tree is printed
+	// Trivia: leading trivia pattern for the synthesised tokens of a programmatic
+	// tree (cyclic; 0 none, 1 comment, 2 line break, 3 blank line + comment)
+	Trivia []int `json:"trivia,omitempty"`
 }
 
 var c03Cfgs = []Cfg{{}, {Pretty: true, Indent: 99}, {Pretty: true, Indent: -1, NoSemi: true}}
@@ -60,7 +63,10 @@ func c03Check(c c03Case, rec *evid.Recorder) *Fail {
 		want = w
 		rec.Class("origin:parser")
 	} else {
-		T = astBuilder{GroupLoose: true}.program(c.Tree)
+		T = astBuilder{GroupLoose: true, Trivia: c.Trivia, n: new(int), noTrivia: returnSpines(c.Tree)}.program(c.Tree)
+		if len(c.Trivia) > 0 {
+			rec.Class("programmatic-tokens-with-trivia")
+		}
 		want = c.Tree
 		rec.Class("origin:programmatic")
 	}
@@ -106,7 +112,13 @@ func c03Gen(t *rapid.T, rec *evid.Recorder) c03Case {
 		src, _ := layout.Source(r, tree, opt)
 		return c03Case{Src: src}
 	}
-	return c03Case{Tree: tree}
+	c := c03Case{Tree: tree}
+	if r.Intn(3, "trivia") == 0 {
+		for i, n := 0, 3+r.Intn(7, "trivialen"); i < n; i++ {
+			c.Trivia = append(c.Trivia, r.Pick("triviakind", 5, 2, 2, 1))
+		}
+	}
+	return c
 }
 
 // slot forms: a parent with one open operand slot, other operands leaves.
